@@ -14,22 +14,22 @@ import (
 // seeded environment (backend) model with fault segments.
 
 type algoCfg struct {
-	Name          string // aimd | vegas | gradient | gradient2 | settable | fixed
-	Initial       int
-	Min, Max      int
-	Smoothing     float64
-	Backoff       float64
-	IncreaseBy    int
-	ProbeMult     int
-	ProbeInterval int // gradient: -1 disabled
-	QFix          int // 0 = default queue-size function
-	Tolerance     float64
-	LongWindow    int
-	Wrap          string // "" | windowed | traced | traced+windowed | windowed+traced
+	Name           string // aimd | vegas | gradient | gradient2 | settable | fixed
+	Initial        int
+	Min, Max       int
+	Smoothing      float64
+	Backoff        float64
+	IncreaseBy     int
+	ProbeMult      int
+	ProbeInterval  int // gradient: -1 disabled
+	QFix           int // 0 = default queue-size function
+	Tolerance      float64
+	LongWindow     int
+	Wrap           string // "" | windowed | traced | traced+windowed | windowed+traced
 	WinMin, WinMax int64
-	WinSize       int32
-	WinThresh     int64
-	DebugLog      bool
+	WinSize        int32
+	WinThresh      int64
+	DebugLog       bool
 }
 
 func (c algoCfg) String() string {
@@ -38,13 +38,13 @@ func (c algoCfg) String() string {
 }
 
 type algo struct {
-	Cfg   algoCfg
-	Lim   core.Limit // outermost
-	Inner core.Limit // the algorithm itself
+	Cfg    algoCfg
+	Lim    core.Limit // outermost
+	Inner  core.Limit // the algorithm itself
 	Lo, Hi int
-	Reg   *RecRegistry
+	Reg    *RecRegistry
 	NoLoad func() int64
-	qfunc func(int) int
+	qfunc  func(int) int
 }
 
 var smoothings = []float64{1.0, 0.2, 0.5, 0.05, 0.9, 0.01}
